@@ -46,7 +46,7 @@ let absprom file =
     String.concat " | " (List.map (fun (p, o) -> Printf.sprintf "%d: srvt=%b server=%s clients=[%s] clit=%b client=%s link=%b promo=%b" p o.srvt o.srv
                                       (String.concat "," (List.map string_of_int o.clients)) o.clit o.cli o.link o.promo) l) in
   let fuel = nat_of_int 200000 in
-  let explore_from starts = match explore fuel starts [] with Some r -> r | None -> failwith "explore: out of fuel" in
+  let explore_from starts = match promotion_explore fuel starts with Some r -> r | None -> failwith "explore: out of fuel" in
   let last_line = ref 0 in
   let check lineno =
     match !reach with
